@@ -430,3 +430,16 @@ theorem letters_strict_mono (a b : Nat) : a < b ↔ shortlex (letters a) (letter
     rw [val_letters, val_letters] at this; omega
 
 end NumbersModel.A1
+
+namespace NumbersModel.A1
+/-- `str(n)` determines `n`. -/
+theorem natStr_injective {a b : Nat} (h : natStr a = natStr b) : a = b := by
+  have hz : ZerosOK [48] := by
+    intro d hd
+    have := digitChar_toNat d hd
+    have h58 : 48 + d < 58 := by omega
+    simp [digitVal, List.find?, this, h58]
+  have a1 := (spanDigits_natStr [48] hz a).2
+  have a2 := (spanDigits_natStr [48] hz b).2
+  rw [h] at a1; omega
+end NumbersModel.A1
